@@ -19,6 +19,7 @@ type alphabetOpts struct {
 	copies       bool
 	clearB       bool
 	selfMerge    bool
+	held         bool      // a protobuf message held across operations
 	runs         []storeOp // extra macro operations
 }
 
@@ -88,6 +89,9 @@ func storeAlphabet(o alphabetOpts) []storeOp {
 	}
 	if o.proto {
 		ops = append(ops, opProto(0, 1, false), opProto(0, 1, true), opProto(1, 0, true))
+	}
+	if o.held {
+		ops = append(ops, opHold(0), opMergeHeld(1))
 	}
 	if o.reads {
 		ops = append(ops, opReadIter(0), opReadEncode(0), opReadMisc(0), opReadStop(0))
@@ -287,6 +291,8 @@ func init() {
 		Shards: func(tier string) []mc.Shard {
 			specs := storeSpecs("C04", []Kind{{K: 'D'}, {K: 'S'}, {K: 'P'}}, tier, 3, 4, func(sp *StoreScenarioSpec, o *alphabetOpts) {
 				sp.ModelClause = true
+				o.selfMerge = true
+				o.held = true
 			})
 			return shardsOfSpecs(specs)
 		},
@@ -320,6 +326,7 @@ func init() {
 			specs := storeSpecs("C05", collapsingKinds(tier), tier, 3, 4, func(sp *StoreScenarioSpec, o *alphabetOpts) {
 				sp.ModelClause = true
 				sp.SpanClause = true
+				o.selfMerge = true
 				if sp.Kinds[0].N >= 64 {
 					sp.Depth = 3
 				}
